@@ -132,6 +132,8 @@ type Dst struct {
 	Calls   [][]byte
 	FailAt  int // -1 = never
 	Partial int // bytes accepted by the failing call
+	// Transient: only call FailAt fails; later calls work again
+	Transient bool
 	Failed  bool
 	After   int // calls that arrived after the failure
 }
@@ -139,7 +141,7 @@ type Dst struct {
 func NewDst() *Dst { return &Dst{FailAt: -1} }
 
 func (d *Dst) Write(p []byte) (int, error) {
-	if d.Failed {
+	if d.Failed && !d.Transient {
 		d.After++
 		return 0, ErrInjected
 	}
